@@ -442,7 +442,12 @@ class Context:
         if self.mapper.check_candidate(identifier, nick_identifier):
             # NOTE: use the first IP address in the list
             item = f'<{nick_identifier}>{identifier}'
-            supvisors_id = self.mapper.add_instance(item)
+            try:
+                supvisors_id = self.mapper.add_instance(item)
+            except ValueError:
+                # the discovered Supvisors instance cannot be identified (e.g. host name not resolved locally)
+                self.logger.error(f'Context.on_discovery_event: cannot add the Supvisors instance {item}')
+                return
             self.logger.info(f'Context.on_discovery_event: new SupvisorsInstanceId={supvisors_id}')
             real_identifier = supvisors_id.identifier
             self.instances[real_identifier] = SupvisorsInstanceStatus(supvisors_id, self.supvisors)
